@@ -1,6 +1,7 @@
 import IpaVerif.Model.Util
 import IpaVerif.Model.Batcher
 import IpaVerif.Model.Validators
+import IpaVerif.Model.BatcherAtomic
 import IpaVerif.Generated.BatcherConsts
 /-! Line-protocol handlers for property C16 (model side). Import-free.
 
@@ -214,11 +215,30 @@ def validators (args : List String) : Option String :=
       pure (String.intercalate " " (outs ++ ["|", "drop=" ++ dropped]))
   | _ => none
 
+/-- `c16.race`, model side (b21): the calls `validate_record(0 … total-1)` through `BatcherAtomic.atomicStep` on the batcher
+model under the round-robin schedule `0 … total-1, 0 … total-1`; every batch must be answered `Ready::Yes` exactly once and
+every call accepted. Whether the code has that atomic shape is read from the sources (`codeIsAtomic`); the check-then-act
+variant lets both of two callers see "ready" (`simpleCode`). -/
+def raceModelOk (rpb total : Nat) : Bool :=
+  let nb := (total + rpb - 1) / rpb
+  let t := IpaVerif.BatcherAtomic.run (IpaVerif.BatcherAtomic.atomicStep total id)
+    (IpaVerif.BatcherAtomic.init (IpaVerif.Batcher.State.new rpb (.specified total) IpaVerif.Generated.targetProofSizeTest))
+    (List.range total ++ List.range total)
+  let log := IpaVerif.BatcherAtomic.readyLog t.outs
+  (List.range nb).all (fun b => log.count b == 1) && log.length == nb
+    && (IpaVerif.BatcherAtomic.accepted id t.outs).length == total
+    && (List.foldl (IpaVerif.BatcherAtomic.simpleCode 2) IpaVerif.BatcherAtomic.Simple.init [0, 1, 0, 1]).taken == 1
+
 /-- `some response` if the request belongs to this property, else `none`. -/
 def handle (toks : List String) : Option String :=
   match toks with
   | "c16.batcher" :: args => some ((batcher args).getD "bad-request")
   | "c16.val" :: args => some ((validators args).getD "bad-request")
+  | ["c16.race", rpb, total, _t, r, _seed] => do
+      let rpb ← rpb.toNat?; let total ← total.toNat?; let r ← r.toNat?
+      if rpb == 0 then none else
+      let nb := (total + rpb - 1) / rpb
+      pure (if raceModelOk rpb total then s!"rounds={r} ok={r} validations={nb * r}" else s!"rounds={r} ok=0 validations={nb * r}")
   | _ => none
 
 /-! ## Spec-side oracle
@@ -510,6 +530,23 @@ def oracle (toks : List String) (impl : String) : Option String :=
   match toks with
   | "c16.batcher" :: args => some ((batcherOracle args impl).getD "unknown")
   | "c16.val" :: args => some ((valOracle args impl).getD "unknown")
+  | ["c16.race", rpb, total, t, r, _seed] => do
+      -- spec: every record of every round is released with Ok after its whole batch asked, nobody hangs or panics, and the
+      -- validation closure runs exactly once per batch: ok = rounds, validations = ceil(total / rpb) * rounds
+      let rpbN ← rpb.toNat?; let totalN ← total.toNat?; let r ← r.toNat?
+      if rpbN == 0 then none else
+      let nb := (totalN + rpbN - 1) / rpbN
+      match (impl.splitOn " ").map (·.splitOn "=") with
+      | ["rounds", r'] :: ["ok", k] :: ["validations", v] :: rest =>
+        let r' ← r'.toNat?; let k ← k.toNat?; let v ← v.toNat?
+        if r' ≠ r then pure "fails malformed response" else
+        pure (if k == r && v == nb * r && rest.isEmpty then "holds"
+          else "fails " ++ toString k ++ " of " ++ toString r ++ " rounds released every record with Ok; the batch validation ran " ++
+            toString v ++ " times for " ++ toString (nb * r) ++ " batches (" ++ total ++ " records, batches of " ++ rpb ++ ", " ++ t ++
+            " threads calling validate_record concurrently)" ++
+            (match rest with | [["first", f]] => " (first failing round:what = " ++ f ++ ")" | _ => "") ++
+            ": a batch must be validated exactly once, after all its records asked, and every waiter must get the verdict")
+      | _ => pure (if impl == "timeout" then "fails timeout" else "fails malformed response")
   | _ => none
 
 end IpaVerif.Driver.C16
